@@ -11,6 +11,12 @@ impl<'a> Lexer<'a> {
     pub(super) fn scan_number(&mut self, start: usize, first: char) {
         let mut value = String::from(first);
         let mut is_float = false;
+        // Directly after a `.` the digits are a tuple index (`pair.0`): `pair.0.1` is two indices, not `.0` and the
+        // float `0.1`, so no fraction or exponent is scanned there.
+        let after_dot = matches!(
+            self.tokens.last().map(|t| &t.kind),
+            Some(TokenKind::Punctuation(incan_core::lang::punctuation::PunctuationId::Dot))
+        );
 
         // Integer part
         while let Some(c) = self.peek() {
@@ -25,7 +31,7 @@ impl<'a> Lexer<'a> {
         }
 
         // Decimal part
-        if self.peek() == Some('.') {
+        if !after_dot && self.peek() == Some('.') {
             // Look ahead to ensure it's not `..` (range) or method call
             if self.peek_next().is_some_and(|c| c.is_ascii_digit()) {
                 is_float = true;
@@ -45,7 +51,7 @@ impl<'a> Lexer<'a> {
         }
 
         // Exponent part
-        if self.peek() == Some('e') || self.peek() == Some('E') {
+        if !after_dot && (self.peek() == Some('e') || self.peek() == Some('E')) {
             is_float = true;
             value.push('e');
             self.advance();
